@@ -32,7 +32,14 @@ PairArms == <<
   Arm(PWild, GNone, ELit(250)),
   Arm(PTup(<<SVar("a"), SVar("b")>>), GGt("a", "b"), Plus("b", 260)),
   Arm(PTup(<<SVar("a"), SVar("b")>>), GEq("a", "b"), EVar("a")),
-  Arm(PTup(<<SLit(0), SVar("b")>>), GGtC("b", 0), Plus("b", 280)) >>
+  Arm(PTup(<<SLit(0), SVar("b")>>), GGtC("b", 0), Plus("b", 280)),
+  \* 10..14: the SAME NAME in different positions of different arms, a variable bound by an arm that then fails, a body
+  \* that reads a parameter / outer variable (inq), and a pattern variable that shadows it
+  Arm(PTup(<<SVar("b"), SVar("a")>>), GNone, Plus("a", 290)),
+  Arm(PTup(<<SVar("x"), SLit(0)>>), GNone, Plus("x", 300)),
+  Arm(PTup(<<SVar("y"), SVar("x")>>), GNone, Plus("x", 310)),
+  Arm(PTup(<<SVar("p"), SWild>>), GNone, EBin("add", EBin("add", EVar("p"), EVar("inq")), ELit(320))),
+  Arm(PTup(<<SVar("inq"), SLit(0)>>), GNone, Plus("inq", 330)) >>
 ArrArms == <<
   Arm(PArr(<<SLit(0)>>, "anon", "", <<>>), GNone, ELit(300)),
   Arm(PArr(<<SVar("h")>>, "anon", "", <<>>), GNone, Plus("h", 310)),
@@ -53,10 +60,12 @@ EnumArms == <<
 Fams == {"scalar", "pair", "arr", "enum"}
 FamArms(f) == CASE f = "scalar" -> ScalarArms [] f = "pair" -> PairArms [] f = "arr" -> ArrArms [] f = "enum" -> EnumArms
 (* function arms have no guard syntax: the guarded arms exist only in match expressions *)
-FnIds(f)    == CASE f = "scalar" -> 1..5 [] f = "pair" -> 1..6 [] f = "arr" -> 1..7 [] f = "enum" -> 1..5
+FnIds(f)    == CASE f = "scalar" -> 1..5 [] f = "pair" -> (1..6) \cup (10..14) [] f = "arr" -> 1..7 [] f = "enum" -> 1..5
 MatchIds(f) == 1..Len(FamArms(f))
 Forms(f) == IF f = "pair" THEN {"fn", "fn1t", "match"} ELSE {"fn", "match"}
-Ids(f, form) == IF form = "match" THEN MatchIds(f) ELSE FnIds(f)
+Ids(f, form) == IF form = "match" THEN MatchIds(f)
+                ELSE IF form = "fn1t" THEN FnIds(f) \ {13, 14}      \* one tuple parameter: there is no parameter inq
+                ELSE FnIds(f)
 
 Dom(f) ==
   CASE f = "scalar" -> IF Big THEN [i \in 1..6 |-> NV(i - 1)] ELSE <<NV(0), NV(1), NV(2), NV(3)>>
